@@ -31,7 +31,7 @@ pub proof fn lemma_tdiv_trem(a: int, b: int)
         assert(a == b * (-((-a) / b)) + (-((-a) % b))) by (nonlinear_arith) requires -a == b * ((-a) / b) + ((-a) % b);
     }
 }
-pub open spec fn in_range(v: int) -> bool { MIN_INT <= v <= MAX_INT }
+// in_range: prelude_object.rs
 
 impl Object {
     /// contract (from the property statement): an in-range exact result is answered exactly, everything
